@@ -209,3 +209,229 @@ pub fn twin_sender_o2() {
     }
     core::mem::forget(enc);
 }
+
+// ------------------------------------------------------------------------------------
+// Receiver side: every packet that is the standard's layout of (kind, label, chain of a
+// concrete shape, protocol type, payload) followed by an arbitrary tail.
+// ------------------------------------------------------------------------------------
+use crate::dmodels::*;
+use dvb_gse_rust::gse_decap::{DecapError, DecapStatus, Decapsulator, GseDecapMemory};
+
+pub const NBR: usize = 48;
+pub const ZR: usize = 6;
+
+/// Writes the packet into `buf`; returns (pkt_len, data_off of payload, written label type).
+#[allow(clippy::too_many_arguments)]
+pub fn write_ext_packet(
+    buf: &mut [u8; NBR],
+    first: bool,
+    lt: LT,
+    label: &[u8; 6],
+    fid: u8,
+    total_len: u16,
+    specs: &[ExtSpec; 4],
+    m: usize,
+    ptype: u16,
+    is_final: bool,
+    payload: &[u8; 8],
+    plen: usize,
+) -> (usize, usize) {
+    let (area, alen) = ext_area(specs, m, ptype, is_final);
+    let mut o = 2usize;
+    if first {
+        buf[o] = fid;
+        buf[o + 1] = (total_len >> 8) as u8;
+        buf[o + 2] = total_len as u8;
+        o += 3;
+    }
+    buf[o] = (specs[0].id >> 8) as u8;
+    buf[o + 1] = specs[0].id as u8;
+    o += 2;
+    let mut i = 0;
+    while i < lt.len() {
+        buf[o] = label[i];
+        o += 1;
+        i += 1;
+    }
+    let mut e = 0;
+    while e < alen {
+        buf[o] = area[e];
+        o += 1;
+        e += 1;
+    }
+    let data_off = o;
+    let mut p = 0;
+    while p < plen {
+        buf[o] = payload[p];
+        o += 1;
+        p += 1;
+    }
+    let gse_len = o - 2;
+    let w = spec_encode(if first { Kind::First } else { Kind::Complete }, lt, gse_len as u16);
+    buf[0] = (w >> 8) as u8;
+    buf[1] = w as u8;
+    (o, data_off)
+}
+
+pub fn ext_equal(e: &Extension, s: &ExtSpec) -> bool {
+    let i = any_len(7);
+    e.id() == s.id && ext_data_len(e) == s.dlen && (i >= s.dlen || ext_data_byte(e, i) == Some(s.data[i]))
+}
+
+/// `unknown`: index of a mandatory entry the manager does not know (None = knows all).
+pub fn ext_receiver_body(classes: &[Class], first: bool, lt: LT, last_final: bool, unknown: Option<usize>) {
+    let m = classes.len();
+    let mut specs = [NO_EXT; 4];
+    let mut mgr = ShapeMgr { ids: [0; 4], sizes: [0; 4], is_final: [false; 4], known: [false; 4] };
+    let mut k = 0;
+    while k < m {
+        specs[k] = mk_spec(classes[k]);
+        if specs[k].mandatory {
+            mgr.ids[k] = specs[k].id;
+            mgr.sizes[k] = specs[k].dlen as u8;
+            mgr.is_final[k] = last_final && k == m - 1;
+            mgr.known[k] = unknown != Some(k);
+            // distinct ids among the mandatory entries of one chain
+            let mut q = 0;
+            while q < k {
+                if specs[q].mandatory {
+                    kani::assume(specs[q].id != specs[k].id);
+                }
+                q += 1;
+            }
+        }
+        k += 1;
+    }
+    let is_final = last_final;
+    let ptype: u16 = if is_final { specs[m - 1].id } else { kani::any() };
+    kani::assume(is_final || ptype >= 0x600);
+    let label: [u8; 6] = kani::any();
+    if lt == LT::Six {
+        kani::assume(label[0] != 0 || label[1] != 0 || label[2] != 0 || label[3] != 0 || label[4] != 0 || label[5] != 0);
+    }
+    let payload: [u8; 8] = kani::any();
+    let plen = any_len(ZR);
+    let fid: u8 = kani::any();
+    let total_len: u16 = kani::any();
+    kani::assume(total_len as usize > plen);
+    let mut buf: [u8; NBR] = kani::any();
+    let (n, data_off) = write_ext_packet(&mut buf, first, lt, &label, fid, total_len, &specs, m, ptype, is_final, &payload, plen);
+    let len = any_len(NBR);
+    kani::assume(len >= n);
+    // receiver: one free buffer, empty slot, arbitrary remembered label (must exist for re-use)
+    let (mem, g) = build_ref_ghost::<1, ZR>(&crate::c13::RX_E);
+    let before = count_bufs(&mem);
+    let last = any_rx_label();
+    kani::assume(lt != LT::ReUse || last.is_some());
+    let mut d = Decapsulator::new(mem, ConstCrc(0), mgr);
+    d.verif_set_last_label(last);
+    let r = d.decap(&buf[..len]);
+    let want_label = match lt {
+        LT::Six => Label::SixBytesLabel(label),
+        LT::Three => Label::ThreeBytesLabel([label[0], label[1], label[2]]),
+        LT::Broadcast => Label::Broadcast,
+        LT::ReUse => last.unwrap(),
+    };
+    if unknown.is_some() {
+        match &r {
+            Err((DecapError::ErrorUnkownMandatoryHeader, consumed)) => {
+                assert!(*consumed == n, "C13.unknown_mandatory_consumes_own_length");
+            }
+            _ => assert!(false, "C13.unknown_mandatory_extension_drops_packet"),
+        }
+        assert!(count_bufs(&d.memory) == before && slot_unchanged(&d.memory, &g, 0), "C08.buffers_conserved");
+        kani::cover!(true, "dropped");
+    } else {
+        let (md, out_bytes_ok) = match &r {
+            Ok((DecapStatus::CompletedPkt(out, md), consumed)) => {
+                assert!(!first, "C13.kind_complete");
+                assert!(*consumed == n, "C13.consumes_on_wire_length");
+                assert!(md.pdu_len() == plen, "C13.pdu_length");
+                let i = any_len(ZR - 1);
+                (md, i >= plen || out[i] == payload[i])
+            }
+            Ok((DecapStatus::FragmentedPkt(md), consumed)) => {
+                assert!(first, "C13.kind_first");
+                assert!(*consumed == n, "C13.consumes_on_wire_length");
+                // payload and chain are kept in the context for the rest of the train
+                let ok = match &d.memory.slots[0] {
+                    Some((c, b)) => {
+                        let i = any_len(ZR - 1);
+                        c.pdu_len as usize == plen
+                            && c.extensions_header.len() == m
+                            && c.protocol_type == ptype
+                            && (i >= plen || b[i] == payload[i])
+                    }
+                    None => false,
+                };
+                (md, ok)
+            }
+            _ => {
+                assert!(false, "C13.known_chain_is_accepted");
+                return;
+            }
+        };
+        assert!(out_bytes_ok, "C13.pdu_bytes");
+        assert!(md.protocol_type() == ptype, "C13.protocol_type");
+        assert!(label_eq(&md.label(), &want_label), "C13.label");
+        assert!(md.extensions().len() == m, "C13.same_number_of_extensions");
+        let mut q = 0;
+        while q < m {
+            assert!(ext_equal(&md.extensions()[q], &specs[q]), "C13.same_ordered_extension_list");
+            q += 1;
+        }
+        kani::cover!(plen > 0, "with_payload");
+        kani::cover!(plen == 0, "empty_payload");
+    }
+    core::mem::forget(r);
+    core::mem::forget(d);
+}
+
+pub const RX_E: Shape = Shape { s: 1, occ: [false, false, false], free: 1, ext: 0 };
+
+macro_rules! ext_receiver {
+    ($name:ident, $unw:literal, $stub:path, $first:expr, $lt:expr, $final:expr, $unknown:expr, [$($c:expr),+]) => {
+        #[kani::proof]
+        #[kani::unwind($unw)]
+        #[kani::stub(dvb_gse_rust::gse_decap::read_gse_header, $stub)]
+        pub fn $name() {
+            ext_receiver_body(&[$($c),+], $first, $lt, $final, $unknown);
+        }
+    };
+}
+
+ext_receiver!(rx_complete_bc_o2, 24, crate::dmodels::hdr_complete_bc, false, LT::Broadcast, false, None, [O(2)]);
+ext_receiver!(rx_complete_6b_o0, 24, crate::dmodels::hdr_complete_6b, false, LT::Six, false, None, [O(0)]);
+ext_receiver!(rx_complete_3b_m3, 24, crate::dmodels::hdr_complete_3b, false, LT::Three, false, None, [M(3)]);
+ext_receiver!(rx_complete_ru_o4_o6, 24, crate::dmodels::hdr_complete_ru, false, LT::ReUse, false, None, [O(4), O(6)]);
+ext_receiver!(rx_complete_bc_o2_mfinal, 24, crate::dmodels::hdr_complete_bc, false, LT::Broadcast, true, None, [O(2), M(0)]);
+ext_receiver!(rx_complete_bc_mfinal2, 24, crate::dmodels::hdr_complete_bc, false, LT::Broadcast, true, None, [M(2)]);
+ext_receiver!(rx_complete_bc_m3_o8_m0, 24, crate::dmodels::hdr_complete_bc, false, LT::Broadcast, false, None, [M(3), O(8), M(0)]);
+ext_receiver!(rx_complete_bc_o2_o4_o6_o8, 24, crate::dmodels::hdr_complete_bc, false, LT::Broadcast, false, None, [O(2), O(4), O(6), O(8)]);
+ext_receiver!(rx_first_bc_o2, 24, crate::dmodels::hdr_first_bc, true, LT::Broadcast, false, None, [O(2)]);
+ext_receiver!(rx_first_6b_m3_o0, 24, crate::dmodels::hdr_first_6b, true, LT::Six, false, None, [M(3), O(0)]);
+ext_receiver!(rx_first_bc_mfinal0, 24, crate::dmodels::hdr_first_bc, true, LT::Broadcast, true, None, [M(0)]);
+ext_receiver!(rx_complete_bc_unknown_m3, 24, crate::dmodels::hdr_complete_bc, false, LT::Broadcast, false, Some(0), [M(3)]);
+ext_receiver!(rx_complete_bc_unknown_second, 24, crate::dmodels::hdr_complete_bc, false, LT::Broadcast, false, Some(1), [O(2), M(0)]);
+ext_receiver!(rx_first_bc_unknown_m0, 24, crate::dmodels::hdr_first_bc, true, LT::Broadcast, false, Some(0), [M(0)]);
+
+#[cfg(feature = "twins")]
+#[kani::proof]
+#[kani::unwind(10)]
+#[kani::stub(dvb_gse_rust::gse_decap::read_gse_header, crate::dmodels::hdr_complete_bc)]
+pub fn twin_rx_complete_bc_o2() {
+    let mut specs = [NO_EXT; 4];
+    specs[0] = mk_spec(O(2));
+    let mgr = ShapeMgr { ids: [0; 4], sizes: [0; 4], is_final: [false; 4], known: [false; 4] };
+    let payload: [u8; 8] = kani::any();
+    let mut buf: [u8; NBR] = kani::any();
+    let (n, _off) = write_ext_packet(&mut buf, false, LT::Broadcast, &[0; 6], 0, 9, &specs, 1, 0x0800, false, &payload, 3);
+    let (mem, _g) = build_ref_ghost::<1, ZR>(&RX_E);
+    let mut d = Decapsulator::new(mem, ConstCrc(0), mgr);
+    let r = d.decap(&buf[..n]);
+    if r.is_ok() {
+        assert!(false, "TWIN.reachable");
+    }
+    core::mem::forget(r);
+    core::mem::forget(d);
+}
